@@ -1,5 +1,5 @@
 (* C18 - Protocol identifier tables are exact: every listed name/number, nothing else. *)
-From Ctap Require Import Base Schema Wire Typed Procs Inst Tables ProcTables Finite FramingP C18P ObEnums ObByteTables Deps ObDeps.
+From Ctap Require Import Base Schema Wire Typed Procs Inst Tables ProcTables Finite FramingP C18P ObEnums ObByteTables Deps ObDeps FnShapes Shapes ObShapeTablesOp ObShapeTablesReq ObShapeTablesInfo.
 Local Open Scope string_scope.
 Local Open Scope Z_scope.
 
@@ -50,8 +50,17 @@ Theorem c18_generated_byte_tables : forallb (fun f => byte_tables_equiv (gen_tab
 Proof. exact generated_byte_tables. Qed.
 
 (* the third-party crates the model represents by hand are pinned at the versions it was written against *)
-Theorem c18_modelled_dependencies_pinned : deps_hold lock_versions cargo_deps = true.
+Theorem c18_modelled_dependencies_pinned : deps_hold repo_lock_present lock_versions harness_lock_versions cargo_deps = true.
 Proof. exact generated_deps. Qed.
+
+(* lookup tables, accessors, builders and further generators this property rests on *)
+Theorem c18_modelled_functions_unchanged_tables_op : shapes_hold fn_shapes shapes_tables_op = true.
+Proof. exact generated_shapes_tables_op. Qed.
+
+Theorem c18_modelled_functions_unchanged_tables_req : shapes_hold fn_shapes shapes_tables_req = true.
+Proof. exact generated_shapes_tables_req. Qed.
+Theorem c18_modelled_functions_unchanged_tables_info : shapes_hold fn_shapes shapes_tables_info = true.
+Proof. exact generated_shapes_tables_info. Qed.
 
 Eval vm_compute in "ASSUMPTIONS c18_generated_enums_exact". Print Assumptions c18_generated_enums_exact.
 Eval vm_compute in "ASSUMPTIONS c18_spec_enums_exact". Print Assumptions c18_spec_enums_exact.
@@ -65,3 +74,6 @@ Eval vm_compute in "ASSUMPTIONS c18_rejected_number_unlisted". Print Assumptions
 Eval vm_compute in "ASSUMPTIONS c18_control_bytes". Print Assumptions c18_control_bytes.
 Eval vm_compute in "ASSUMPTIONS c18_generated_byte_tables". Print Assumptions c18_generated_byte_tables.
 Eval vm_compute in "ASSUMPTIONS c18_modelled_dependencies_pinned". Print Assumptions c18_modelled_dependencies_pinned.
+Eval vm_compute in "ASSUMPTIONS c18_modelled_functions_unchanged_tables_op". Print Assumptions c18_modelled_functions_unchanged_tables_op.
+Eval vm_compute in "ASSUMPTIONS c18_modelled_functions_unchanged_tables_req". Print Assumptions c18_modelled_functions_unchanged_tables_req.
+Eval vm_compute in "ASSUMPTIONS c18_modelled_functions_unchanged_tables_info". Print Assumptions c18_modelled_functions_unchanged_tables_info.
